@@ -18,6 +18,7 @@ import itertools, json, math, os, shutil
 from fractions import Fraction
 
 from harness.gen import c11_gen as G
+from harness.gen import c11_glue as GL
 from harness.gen import sim
 
 RULE = ("a case is one block pair handed to compare_block / the polyploid calculator, or one `whatshap compare` "
@@ -30,27 +31,34 @@ MANIFEST = dict(
          "compute_switch_flips, compare_block, longest-block agreement as coded and as repaired), all block lengths: "
          "switches = s + 2f, zero on identical input, invariance under swapping the haplotypes of either phasing, Hamming = "
          "minimum over correspondences = min(d, n-d), different genotypes = multiset definition, switch errors = changes of "
-         "the forced correspondence, agreement vector has exactly `hamming` zeros (repaired code; Lean witness that the "
-         "current code violates it, F3). Polyploid calculator (switchflipcalculator.cpp, model incl. its pruning), ploidy <= 4, "
-         "all lengths and costs: cost = brute-force minimum over all sequences of haplotype correspondences "
-         "(poly_dp_unpruned_optimal, poly_prune_sound, poly_dp_optimal) and every pair the back-tracking may return has "
-         "that cost. Joint blocks, totals, BED/TSV content, multiway histogram: executable Lean model, tied to the working "
-         "tree by in-process calls and real CLI runs; definitions recomputed independently by brute force on every run",
+         "the forced correspondence, agreement vector has exactly `hamming` zeros. Polyploid calculator "
+         "(switchflipcalculator.cpp, model incl. its pruning), ploidy <= 4, all lengths and costs: cost = brute-force minimum "
+         "over all sequences of haplotype correspondences; every (switches, flips) pair the back-tracking may return is REALISED "
+         "by such a sequence and is a member of the brute-force set of optimal pairs (poly_reported_pair_realised); with the "
+         "costs compare_block uses the pair is unique and the lexicographic minimum of (switches+flips, flips) "
+         "(poly_fixed_split_unique_lexmin); the optimum and the set of co-optimal pairs are invariant under listing the "
+         "haplotypes of either phasing in any order (poly_optimum_perm_invariant) and so is everything compare_block reports "
+         "for ploidy 3, 4 (poly_perm_invariant). Glue of run_compare (sample selection, reader filters incl. --only-snvs, "
+         "variant identity, common chromosomes, all pairs, BED order, multiway table): executable Lean model `c11.run`, tied "
+         "to the working tree by real CLI runs; with fixes/F46.patch every assessed diploid block has the shape the diploid "
+         "theorems assume (assessed_diploid_blocks_are_complementary)",
     design_ref="DESIGN.md §5 C11, §6 F3",
     note="trusted: Lean kernel, axioms ⊆ {propext, Classical.choice, Quot.sound}; the hand-written model (correspondence is "
-         "differential testing: quick ≈ 5 400 cases incl. ≈ 135 CLI runs, thorough ≈ 70 000 incl. ≈ 1 800 CLI runs). Not proved "
-         "in Lean: that a returned polyploid (switches, flips) pair is realised by a sequence (only its cost), ploidy > 4, "
-         "relabelling invariance for polyploid input, the model of `compare`'s block intersection — these are checked against "
-         "brute-force definitions and by metamorphic re-runs on every run. The unchanged tree violates the property "
-         "(F3 and four new findings FC11a-d, each with a proposed patch under fixes/)",
+         "differential testing: quick ≈ 5 500 cases incl. ≈ 135 + ≈ 100 CLI runs, thorough ≈ 70 000 incl. ≈ 1 800 + ≈ 1 000). "
+         "Not proved in Lean: ploidy > 4; the joint-block / totals part of the model of `compare` against a spec (checked "
+         "against brute-force definitions on every run). Not modelled: HP-tag phasing, --names validation, plots, the printed "
+         "report, allele indices >= 10 (two characters in the haplotype strings). Open findings on the unchanged tree: F45 "
+         "(KeyError on a multi-allelic diploid call), F46 (diploid numbers derived from the first haplotype only), F47 "
+         "(hash-seed dependent sample column of --tsv-multiway), each with a patch under fixes/",
     technique="Lean 4 proofs about a faithful functional model + differential correspondence (in-process and CLI) + "
               "brute-force definition oracle + metamorphic relabelling",
 )
 ASSUMPTIONS = [
-    "alleles are single digits; the CLI generator writes biallelic het/hom GT with PS tags (no HP tags, no multi-ALT records); "
-    "multi-allelic haplotype strings are exercised only in-process (correspondence, not the definition oracle)",
+    "alleles are single digits (at most 3 ALT alleles are generated); HP tags are not generated; VCFs are position-sorted",
     "float sums of k/ploidy per block are compared with tolerance 1e-9 to the exact rational",
     "Python asserts are enabled (the model maps AssertionError/KeyError/ZeroDivisionError to `error`)",
+    "glue stream: for diploid calls with an allele >= 2 two readings of 'assessed' are admitted: every phased call is "
+    "(then the numbers must equal the definitions: F46), or such calls are not assessed at all (fixes/F46.patch)",
 ]
 
 K_F3 = "F3-longest-block-agreement"
@@ -191,8 +199,19 @@ class Lib:
                 combos = [(a, b) for a in perms for b in perms][1:]
                 if relabels < len(combos):
                     combos = ctx.rng.sample(combos, relabels)
-                for s0, s1 in combos:
+                for ci, (s0, s1) in enumerate(combos):
                     r = self.impl_block(G.relabel(ph0, s0), G.relabel(ph1, s1))
+                    if ci == 0:
+                        # the relabelling of the theorems (`relabelHaps`, Props.C11.poly_perm_invariant) is the harness's one,
+                        # and the model of the current code on the relabelled block is what the implementation reports
+                        def cbr(req, ans, r=r, s0=s0, s1=s1):
+                            if ans["ph0"] != G.relabel(ph0, s0) or ans["ph1"] != G.relabel(ph1, s1):
+                                ctx.disagree("c11.relabel:haplotypes", req, [G.relabel(ph0, s0), G.relabel(ph1, s1)], [ans["ph0"], ans["ph1"]])
+                            elif not block_exact(r, ans["block"]) and not keys:
+                                ctx.disagree("c11.relabel", req, show(r), ans["block"])
+                            elif p > 2 and ans["block"] != ans["orig"]:
+                                ctx.disagree("c11.relabel:model-not-invariant (contradicts poly_perm_invariant)", req, ans["orig"], ans["block"])
+                        self.ask({"op": "c11.relabel", "ph0": ph0, "ph1": ph1, "tau": list(s0), "ups": list(s1)}, cbr, may_flush=False)
                     if r != impl:
                         only_split = (r != "error" and p > 2 and all(r[k] == impl[k] for k in ("switches", "hamming", "diff"))
                                       and sum(r["sf"]) == sum(impl["sf"]))
@@ -292,6 +311,15 @@ def block_cmp(impl, ans):
     return strict, (impl["sf"][0] * den, impl["sf"][1] * den) in {tuple(x) for x in ans["sfAdm"]}
 
 
+def block_exact(impl, ans):
+    """compare_block result == model answer, the polyploid switch/flip pair included (unique for the current code)"""
+    if impl == "error" or ans == "error":
+        return impl == ans
+    den = ans["den"]
+    return ((impl["switches"], impl["hamming"], impl["diff"]) == (Fraction(ans["switches"], den), Fraction(ans["hamming"], den), ans["diff"])
+            and tuple(impl["sf"]) == (Fraction(ans["sf"][0], den), Fraction(ans["sf"][1], den)))
+
+
 # ------------------------------------------------------------------------------------------------
 # CLI level
 # ------------------------------------------------------------------------------------------------
@@ -366,6 +394,108 @@ def run_cli(ctx, scen, d, tag):
     return res
 
 
+MULTI_KEYS = {"cli-all_switches", "cli-largestblock_switches", "cli-all_switchflips", "cli-largestblock_switchflips",
+              "cli-identity", "cli-bed", "cli-bed-count", "cli-longest-vector", "F3-longest-block-agreement"}
+
+
+def check_pair_row(ctx, fail_, where, row, res, key, t0, t1, p, multi_key=None):
+    """the property predicate on one --tsv-pairwise row (+ its BED / longest-block rows): the definitions recomputed from
+    the calls `t0`, `t1` of the two data sets.  Returns True when some error count is non-zero.
+    `multi_key`: key under which deviations of the diploid first-haplotype formulas are reported (F46) when the compared
+    calls contain an allele other than 0/1."""
+    nontrivial = False
+    c, i, j = key
+    def fail(what, k, c_=None):
+        fail_(what, multi_key if (multi_key and k in MULTI_KEYS) else k, c_)
+    D = G.pair_definitions(t0, t1, p)
+    ctx.dist("cli_blocks", D["intersection_blocks"])
+    for b in D["blocks"]:
+        ctx.dist("cli_block_len", len(b))
+    single = p > 2 and any(x[3]["n_matching"] == 1 for x in D["per_block"])
+    where = f"{c} f{i}<->f{j}: "
+    # "the longest block": any intersection block of maximal length is accepted (the code takes the first)
+    cands = [x for x in D["per_block"] if len(x[0]) == D["longest_len"]]
+    lb = res["longest"].get(key, []) if p == 2 else []
+    chosen = None
+    if cands and p == 2 and lb:
+        chosen = next((x for x in cands if [D["common"][v] for v in x[0]] == [q for q, _ in lb]), None)
+        if chosen is None:
+            fail(where + "--longest-block-tsv does not list the positions of an intersection block of maximal length", "cli-longest-positions")
+    elif cands and p == 2 and "crash" not in res:
+        fail(where + "--longest-block-tsv has no rows although there is an intersection block", "cli-longest-positions")
+    elif cands:
+        chosen = next((x for x in cands if largest_matches(row, x[3], p)), None)
+    if cands and chosen is None:
+        chosen = cands[0]
+    L = chosen[3] if chosen else None
+    for col, exp in (("intersection_blocks", D["intersection_blocks"]), ("covered_variants", D["covered"]),
+                     ("all_assessed_pairs", D["pairs"]), ("largestblock_assessed_pairs", max(D["longest_len"] - 1, 0)),
+                     ("blockwise_diff_genotypes", D["total"]["diff"]),
+                     ("largestblock_diff_genotypes", L["diff"] if L else 0)):
+        if int(row[col]) != exp:
+            fail(where + f"{col} = {row[col]}, by definition {exp}", "cli-" + col)
+    for col, exp in (("all_switches", D["total"]["switches"]), ("blockwise_hamming", D["total"]["hamming"]),
+                     ("largestblock_switches", L["switches"] if L else 0),
+                     ("largestblock_hamming", L["hamming"] if L else 0)):
+        if frac(float(row[col])) != exp:
+            kk = K_A if (single and "switches" in col) else "cli-" + col
+            fail(where + f"{col} = {row[col]}, by definition {exp}", kk)
+    for col, swcol, cost, pairs in (
+            ("all_switchflips", "all_switches", D["total"]["sf_cost"], D["total_sf_pairs"]),
+            ("largestblock_switchflips", "largestblock_switches", L["sf_cost"] if L else 0,
+             L["sf_pairs"] if L else {(0, 0)})):
+        s, f = parse_sf(row[col])
+        if p == 2:
+            if s + f != cost:
+                fail(where + f"{col} = {row[col]}: s+f is not the minimum {cost}", "cli-" + col)
+            if s + 2 * f != frac(float(row[swcol])):
+                fail(where + f"{swcol} = {row[swcol]} != s + 2f of {col} = {row[col]}", "cli-identity")
+        elif (s, f) not in pairs:
+            fail(where + f"{col} = {row[col]} is not an optimal decomposition (cost {cost})", "cli-" + col)
+        elif s + 2 * f != frac(float(row[swcol])):
+            ctx.observe("polyploid: switches != s + 2f (identity is stated/proved for diploid only)")
+    if any(float(row[x]) != 0 for x in ("all_switches", "blockwise_hamming", "blockwise_diff_genotypes")):
+        nontrivial = True
+    # the rate columns are the quotients of the count columns (nan when nothing was assessed)
+    longest = int(row["largestblock_assessed_pairs"]) + 1 if int(row["largestblock_assessed_pairs"]) > 0 else D["longest_len"]
+    for rate, num, den in (("all_switch_rate", float(row["all_switches"]), int(row["all_assessed_pairs"])),
+                           ("all_switchflip_rate", float(sum(parse_sf(row["all_switchflips"]))), int(row["all_assessed_pairs"])),
+                           ("blockwise_hamming_rate", float(row["blockwise_hamming"]), int(row["covered_variants"])),
+                           ("blockwise_diff_genotypes_rate", float(row["blockwise_diff_genotypes"]), int(row["covered_variants"])),
+                           ("largestblock_switch_rate", float(row["largestblock_switches"]), int(row["largestblock_assessed_pairs"])),
+                           ("largestblock_switchflip_rate", float(sum(parse_sf(row["largestblock_switchflips"]))), int(row["largestblock_assessed_pairs"])),
+                           ("largestblock_hamming_rate", float(row["largestblock_hamming"]), longest),
+                           ("largestblock_diff_genotypes_rate", float(row["largestblock_diff_genotypes"]), longest)):
+        got_rate = float(row[rate])
+        if (den == 0) != math.isnan(got_rate) or (den and abs(got_rate - num / den) > 1e-9):
+            fail(where + f"{rate} = {row[rate]} is not {num}/{den}", "cli-rate")
+    if p == 2:
+        # BED rows = switch positions
+        exp_bed = []
+        for b, ph0, ph1, _ in D["per_block"]:
+            o = [x == y for x, y in zip(ph0[0], ph1[0])]
+            exp_bed += [(D["common"][b[x]] + 1, D["common"][b[x + 1]] + 1) for x in range(len(b) - 1) if o[x] != o[x + 1]]
+        got = sorted(res["bed"].get((c, i, j), []))
+        if "crash" not in res:
+            if got != sorted(exp_bed):
+                fail(where + f"--switch-error-bed rows {got} != positions where the correspondence changes {sorted(exp_bed)}", "cli-bed")
+            if len(got) != int(row["all_switches"]):
+                fail(where + f"{len(got)} BED rows but all_switches = {row['all_switches']}", "cli-bed-count")
+        # longest-block agreement
+        if chosen and lb and [D["common"][v] for v in chosen[0]] == [q for q, _ in lb]:
+            _, ph0, ph1, _ = chosen
+            agr = [y for _, y in lb]
+            eq = [int(x == y) for x, y in zip(ph0[0], ph1[0])]
+            zeros = agr.count(0)
+            if zeros != int(row["largestblock_hamming"]):
+                fail(where + f"--longest-block-tsv marks {zeros} of {len(agr)} positions as disagreeing, largestblock_hamming = {row['largestblock_hamming']}", K_F3)
+            elif agr != eq and agr != [1 - x for x in eq]:
+                fail(where + "agreement vector is neither the position-wise agreement nor its inverse", "cli-longest-vector")
+        elif lb and not cands:
+            fail(where + "--longest-block-tsv has rows although there is no intersection block", "cli-longest-positions")
+    return nontrivial
+
+
 def table_json(calls):
     return [[c["pos"], c["gt"], c["phased"], c["ps"]] for c in calls]
 
@@ -400,6 +530,11 @@ def check_cli(ctx, scen, d, n_relabel, replay_relabelled=None):
     nontrivial = False
     model_reqs = []
     for c in scen.chroms:
+        if not all(scen.files[f].get(c) for f in range(k)):
+            # a chromosome without a record in some file is not common to all VCFs: it is rightly not compared
+            if any(kk[0] == c for kk in res["rows"]):
+                fail(f"--tsv-pairwise has rows for {c} although not every file has records on it", "cli-unexpected-row")
+            continue
         for i in range(k):
             for j in range(i + 1, k):
                 row = res["rows"].get((c, i, j))
@@ -408,79 +543,9 @@ def check_cli(ctx, scen, d, n_relabel, replay_relabelled=None):
                     if "crash" not in res:
                         fail(f"no --tsv-pairwise row for {c} f{i} f{j}", "cli-missing-row")
                     continue
-                D = G.pair_definitions(t0, t1, p)
-                ctx.dist("cli_blocks", D["intersection_blocks"])
-                for b in D["blocks"]:
-                    ctx.dist("cli_block_len", len(b))
-                single = p > 2 and any(x[3]["n_matching"] == 1 for x in D["per_block"])
                 where = f"{c} f{i}<->f{j}: "
-                # "the longest block": any intersection block of maximal length is accepted (the code takes the first)
-                cands = [x for x in D["per_block"] if len(x[0]) == D["longest_len"]]
-                lb = res["longest"].get((c, i, j), []) if p == 2 else []
-                chosen = None
-                if cands and p == 2 and lb:
-                    chosen = next((x for x in cands if [D["common"][v] for v in x[0]] == [q for q, _ in lb]), None)
-                    if chosen is None:
-                        fail(where + "--longest-block-tsv does not list the positions of an intersection block of maximal length", "cli-longest-positions")
-                elif cands and p == 2 and "crash" not in res:
-                    fail(where + "--longest-block-tsv has no rows although there is an intersection block", "cli-longest-positions")
-                elif cands:
-                    chosen = next((x for x in cands if largest_matches(row, x[3], p)), None)
-                if cands and chosen is None:
-                    chosen = cands[0]
-                L = chosen[3] if chosen else None
-                for col, exp in (("intersection_blocks", D["intersection_blocks"]), ("covered_variants", D["covered"]),
-                                 ("all_assessed_pairs", D["pairs"]), ("largestblock_assessed_pairs", max(D["longest_len"] - 1, 0)),
-                                 ("blockwise_diff_genotypes", D["total"]["diff"]),
-                                 ("largestblock_diff_genotypes", L["diff"] if L else 0)):
-                    if int(row[col]) != exp:
-                        fail(where + f"{col} = {row[col]}, by definition {exp}", "cli-" + col)
-                for col, exp in (("all_switches", D["total"]["switches"]), ("blockwise_hamming", D["total"]["hamming"]),
-                                 ("largestblock_switches", L["switches"] if L else 0),
-                                 ("largestblock_hamming", L["hamming"] if L else 0)):
-                    if frac(float(row[col])) != exp:
-                        key = K_A if (single and "switches" in col) else "cli-" + col
-                        fail(where + f"{col} = {row[col]}, by definition {exp}", key)
-                for col, swcol, cost, pairs in (
-                        ("all_switchflips", "all_switches", D["total"]["sf_cost"], D["total_sf_pairs"]),
-                        ("largestblock_switchflips", "largestblock_switches", L["sf_cost"] if L else 0,
-                         L["sf_pairs"] if L else {(0, 0)})):
-                    s, f = parse_sf(row[col])
-                    if p == 2:
-                        if s + f != cost:
-                            fail(where + f"{col} = {row[col]}: s+f is not the minimum {cost}", "cli-" + col)
-                        if s + 2 * f != frac(float(row[swcol])):
-                            fail(where + f"{swcol} = {row[swcol]} != s + 2f of {col} = {row[col]}", "cli-identity")
-                    elif (s, f) not in pairs:
-                        fail(where + f"{col} = {row[col]} is not an optimal decomposition (cost {cost})", "cli-" + col)
-                    elif s + 2 * f != frac(float(row[swcol])):
-                        ctx.observe("polyploid: switches != s + 2f (identity is stated/proved for diploid only)")
-                if any(float(row[x]) != 0 for x in ("all_switches", "blockwise_hamming", "blockwise_diff_genotypes")):
+                if check_pair_row(ctx, fail, where, row, res, (c, i, j), t0, t1, p):
                     nontrivial = True
-                if p == 2:
-                    # BED rows = switch positions
-                    exp_bed = []
-                    for b, ph0, ph1, _ in D["per_block"]:
-                        o = [x == y for x, y in zip(ph0[0], ph1[0])]
-                        exp_bed += [(D["common"][b[x]] + 1, D["common"][b[x + 1]] + 1) for x in range(len(b) - 1) if o[x] != o[x + 1]]
-                    got = sorted(res["bed"].get((c, i, j), []))
-                    if "crash" not in res:
-                        if got != sorted(exp_bed):
-                            fail(where + f"--switch-error-bed rows {got} != positions where the correspondence changes {sorted(exp_bed)}", "cli-bed")
-                        if len(got) != int(row["all_switches"]):
-                            fail(where + f"{len(got)} BED rows but all_switches = {row['all_switches']}", "cli-bed-count")
-                    # longest-block agreement
-                    if chosen and lb and [D["common"][v] for v in chosen[0]] == [q for q, _ in lb]:
-                        _, ph0, ph1, _ = chosen
-                        agr = [y for _, y in lb]
-                        eq = [int(x == y) for x, y in zip(ph0[0], ph1[0])]
-                        zeros = agr.count(0)
-                        if zeros != int(row["largestblock_hamming"]):
-                            fail(where + f"--longest-block-tsv marks {zeros} of {len(agr)} positions as disagreeing, largestblock_hamming = {row['largestblock_hamming']}", K_F3)
-                        elif agr != eq and agr != [1 - x for x in eq]:
-                            fail(where + "agreement vector is neither the position-wise agreement nor its inverse", "cli-longest-vector")
-                    elif lb and not cands:
-                        fail(where + "--longest-block-tsv has rows although there is no intersection block", "cli-longest-positions")
                 model_reqs.append(((c, i, j), {"op": "c11.pair", "ploidy": p, "t0": table_json(t0), "t1": table_json(t1),
                                               "fixA": True, "fixB": True, "fix3": True}))
         if p == 2 and k > 2 and "crash" not in res:
@@ -497,7 +562,7 @@ def check_cli(ctx, scen, d, n_relabel, replay_relabelled=None):
     faithful_needed = []
     for (key, req), ans in zip(model_reqs, answers):
         row = res["rows"][key]
-        if not pair_model_equal(row, res, key, ans, p):
+        if not pair_model_equal(row, res, key, ans, p, exact_split=True):     # repaired code: the polyploid split is unique
             faithful_needed.append((key, req))
     if faithful_needed:
         reqs = [dict(r, fixA=False, fixB=False, fix3=False) for _, r in faithful_needed]
@@ -575,7 +640,7 @@ def Scenario_from(case):
     return G.Scenario.from_case(case)
 
 
-def pair_model_equal(row, res, key, ans, p):
+def pair_model_equal(row, res, key, ans, p, exact_split=False):
     if ans == "error":
         return False
     def num(e, name):
@@ -585,7 +650,9 @@ def pair_model_equal(row, res, key, ans, p):
         s, f = parse_sf(row[col])
         if p == 2:
             return (s, f) == (e["sf"][0], e["sf"][1])
-        return s + f == Fraction(e["sf"][0] + e["sf"][1], e["den"])   # the split depends on hash order; the sum is determined
+        if exact_split:   # repaired code: the decomposition is unique (Props.C11.poly_fixed_split_unique_lexmin)
+            return (s, f) == (Fraction(e["sf"][0], e["den"]), Fraction(e["sf"][1], e["den"]))
+        return s + f == Fraction(e["sf"][0] + e["sf"][1], e["den"])   # as coded the split depends on hash order; the sum is determined
     t = ans["total"]
     ok = (int(row["intersection_blocks"]) == ans["intersection_blocks"] and int(row["covered_variants"]) == ans["covered_variants"]
           and int(row["all_assessed_pairs"]) == ans["assessed_pairs"]
@@ -608,6 +675,274 @@ def pair_model_equal(row, res, key, ans, p):
         ok = ok and sorted(res["bed"].get(key, [])) == sorted(tuple(x) for x in ans["bed"])
     return ok
 
+
+
+# ------------------------------------------------------------------------------------------------
+# the glue of `whatshap compare`: samples, reader options, variant identity, chromosomes, pairs, tables
+# ------------------------------------------------------------------------------------------------
+
+K_F45 = "F45-diploid-multiallelic-complement-keyerror"
+K_F46 = "F46-diploid-multiallelic-first-haplotype"
+K_F47 = "F47-multiway-sample-column-set-order"
+ERR_PATTERNS = [
+    ("multi-sample-ignore", "option --ignore-sample-name not available"),
+    ("sample-not-found", "requested on command-line not found in all VCFs"),
+    ("no-common-sample", "None of the samples is present in all VCFs"),
+    ("ambiguous-sample", "More than one sample is present in all VCFs"),
+    ("ploidy", "Provided ploidy is invalid"),
+    ("no-common-chromosome", "No chromosome is contained in all VCFs"),
+    ("not-sorted", "VCF not ordered"),
+]
+
+
+def run_glue_cli(ctx, gs, d, tag, hashseed=None):
+    k, p, o = gs.n_files, gs.ploidy, gs.opts
+    paths = []
+    for f in range(k):
+        path = os.path.join(d, f"{tag}_{f}.vcf")
+        sim.write_vcf(path, gs.contigs, gs.files[f]["samples"], gs.vcf_records(f), fmt_defs=GL.PS_DEF)
+        paths.append(path)
+    out = {n: os.path.join(d, f"{tag}.{n}") for n in ("pair.tsv", "bed", "longest.tsv", "multi.tsv")}
+    args = ["compare", "--ploidy", p, "--names", ",".join(f"f{i}" for i in range(k)), "--tsv-pairwise", out["pair.tsv"]]
+    if o["only_snvs"]:
+        args.append("--only-snvs")
+    if o["ignore"]:
+        args.append("--ignore-sample-name")
+    if o["sample"]:
+        args += ["--sample", o["sample"]]
+    if p == 2:
+        args += ["--switch-error-bed", out["bed"], "--longest-block-tsv", out["longest.tsv"]]
+        if k > 2:
+            args += ["--tsv-multiway", out["multi.tsv"]]
+    env = {"PYTHONHASHSEED": str(hashseed)} if hashseed is not None else None
+    rc, so, se, _ = sim.whatshap(args + paths, ctx.overlay, env_extra=env)
+    res = {"rc": rc, "error": None}
+    if rc != 0:
+        res["error"] = next((name for name, pat in ERR_PATTERNS if pat in se), "exception")
+        last = [l for l in se.strip().splitlines() if l.strip()][-1:] or [""]
+        res["crash"] = last[0][:200]
+        res["keyerror"] = "KeyError" in se and "complement" in se
+    rows, order = {}, []
+    if os.path.exists(out["pair.tsv"]):
+        lines = [l.rstrip("\n").split("\t") for l in open(out["pair.tsv"])]
+        if lines:
+            hdr = [h.lstrip("#") for h in lines[0]]
+            for l in lines[1:]:
+                r = dict(zip(hdr, l))
+                key = (r["chromosome"], int(r["dataset_name0"][1:]), int(r["dataset_name1"][1:]))
+                rows[key] = r
+                order.append(key)
+    res["rows"], res["row_order"] = rows, order
+    bed, bedseq = {}, []
+    if p == 2 and os.path.exists(out["bed"]):
+        for l in open(out["bed"]):
+            c, s, e, ann = l.rstrip("\n").split("\t")
+            a, b = ann.split("<-->")
+            bed.setdefault((c, int(a[1:]), int(b[1:])), []).append((int(s), int(e)))
+            bedseq.append([c, int(s), int(e), int(a[1:]), int(b[1:])])
+    res["bed"], res["bedseq"] = bed, bedseq
+    lb = {}
+    if p == 2 and os.path.exists(out["longest.tsv"]):
+        for l in open(out["longest.tsv"]):
+            if l.startswith("#"):
+                continue
+            a, b, _, c, pos, agr = l.rstrip("\n").split("\t")
+            lb.setdefault((c, int(a[1:]), int(b[1:])), []).append((int(pos), int(agr)))
+    res["longest"] = lb
+    mw = {}
+    if p == 2 and k > 2 and os.path.exists(out["multi.tsv"]):
+        for l in open(out["multi.tsv"]):
+            if l.startswith("#"):
+                continue
+            sname, c, left, right, cnt = l.rstrip("\n").split("\t")
+            rs = [int(x[1:]) for x in right.strip("{}").split(",") if x]
+            mw.setdefault(c, []).append((sname, rs, int(cnt)))
+    res["multiway"] = mw
+    for f in list(out.values()) + paths:
+        if os.path.exists(f):
+            os.remove(f)
+    return res
+
+
+def check_glue(ctx, gs, d, n_relabel=1, replay_relabelled=None):
+    """one `whatshap compare` run on a glue scenario: (a) the numbers of every written row equal the definitions recomputed
+    from the variants both files really share (position, REF, ALT), for the sample the options select, with the
+    reader's documented filters; the sample / het_variants0 / only_snvs columns; refusal when no sample can be selected;
+    (b) everything (errors, rows, their order, BED order, multiway) equals the Lean model `c11.run`; (c) relabelling."""
+    ctx.evaluated()
+    case = dict(gs.as_case(), kind="glue")
+    p, k, o = gs.ploidy, gs.n_files, gs.opts
+    multi = gs.has_multi_gt()
+    ctx.dist("glue_ploidy", p); ctx.dist("glue_files", k); ctx.dist("glue_multi_gt", multi)
+    ctx.dist("glue_opts", f"sample={'y' if o['sample'] else 'n'} ignore={int(o['ignore'])} only_snvs={int(o['only_snvs'])}")
+    res = run_glue_cli(ctx, gs, d, "glue")
+    ctx.dist("glue_outcome", res["error"] or "ok")
+    fails = []
+
+    def fail(what, key, c=None):
+        fails.append(key)
+        ctx.fail(what, c or case, key=key)
+
+    # ---- (a) property predicate
+    names = gs.expected_samples()
+    def contiguous(f):
+        seq = [r["chrom"] for r in f["records"]]
+        runs = [c for i_, c in enumerate(seq) if i_ == 0 or seq[i_ - 1] != c]
+        return len(runs) == len(set(runs))
+    if not all(contiguous(f) for f in gs.files):
+        # the records of a chromosome are not contiguous: not a file the property speaks about (the reader keeps the LAST run of
+        # a chromosome only — modelled, so the correspondence below still applies); the definition oracle is skipped
+        ctx.observe("glue: a file with non-contiguous records of one chromosome — oracle skipped, correspondence only")
+        names = None if names is None else "skip"
+    if names is None:
+        if res["rc"] == 0:
+            fail("whatshap compare ran although the options select no sample present in all files", "glue-sample-refusal")
+    elif names == "skip":
+        names = None
+    elif res["error"] == "exception":
+        if res.get("keyerror") and p == 2 and multi:
+            fail("whatshap compare dies with KeyError in complement(): a heterozygous multi-allelic call lists an allele >= 2 on the "
+                 "first haplotype of the second data set (compare reads its input with mav=True)", K_F45)
+        else:
+            fail("whatshap compare exits with an exception: " + res.get("crash", ""), "glue-crash")
+    if names is not None:
+        nontrivial = False
+        for key, row in res["rows"].items():
+            c, i, j = key
+            t0, t1 = gs.pair_tables(c, i, j, names)
+            where = f"{c} f{i}<->f{j}: "
+            mk = K_F46 if (p == 2 and any(a > 1 for t in (t0, t1) for x in t for a in x["gt"])) else None
+            if mk is None:
+                if check_pair_row(ctx, fail, where, row, res, key, t0, t1, p):
+                    nontrivial = True
+            else:
+                # diploid calls with an allele >= 2: either every phased call is assessed (then the numbers must equal the
+                # definitions: F46 when they do not), or such calls are not assessed at all (fixes/F46.patch)
+                strict, lenient = [], []
+                check_pair_row(ctx, lambda w, k_, c_=None: strict.append((w, k_, c_)), where, row, res, key, t0, t1, p, multi_key=mk)
+                if strict:
+                    u0, u1 = ([dict(x, phased=x["phased"] and all(a <= 1 for a in x["gt"])) for x in t] for t in (t0, t1))
+                    check_pair_row(ctx, lambda w, k_, c_=None: lenient.append((w, k_, c_)), where, row, res, key, u0, u1, p)
+                    if lenient:
+                        for w, k_, c_ in strict:
+                            fail(w, k_, c_)
+                    else:
+                        ctx.observe("diploid: phases of calls with an allele >= 2 are not assessed (F46 repair present)")
+            exp_s = f"{names[i]}_{names[j]}" if o["ignore"] else names[i]
+            if row["sample"] != exp_s:
+                fail(where + f"sample column {row['sample']!r}, compared samples are {exp_s!r}", "glue-sample-column")
+            if int(row["het_variants0"]) != gs.het0(c, names):
+                fail(where + f"het_variants0 = {row['het_variants0']}, the first file has {gs.het0(c, names)} non-homozygous variants", "glue-het0")
+            if int(row["only_snvs"]) != int(o["only_snvs"]):
+                fail(where + "only_snvs column does not show the option", "glue-only-snvs-column")
+        if res["rc"] == 0:
+            common = sorted(c for c in gs.chroms if all(any(r["chrom"] == c for r in f["records"]) for f in gs.files))
+            want = [(c, i, j) for c in common for i in range(k) for j in range(i + 1, k)]
+            if res["row_order"] != want:
+                fail(f"--tsv-pairwise rows {res['row_order']} != all pairs of the common chromosomes in sorted order {want}", "glue-rows")
+        if nontrivial:
+            ctx.nontrivial("glue" + json.dumps(case, sort_keys=True))
+
+    # ---- (b) correspondence with the Lean model of run_compare
+    req = gs.model_request()
+    variants = [dict(fix45=False, fix46=False), dict(fix45=True, fix46=False), dict(fix45=True, fix46=True),
+                dict(fix45=False, fix46=True)]
+    answers = ctx.model.ask_many([dict(req, fix3=True, **v) for v in variants])
+    ans = answers[0]
+
+    def model_equal(ans):
+        if "error" in ans:
+            want = "exception" if ans["error"] == "no-sample" else ans["error"]     # a VCF without samples: IndexError
+            return res["error"] == want and not res["rows"]
+        chroms = ans["chroms"]
+        died = bool(chroms and chroms[-1]["died"])
+        if died != (res["error"] == "exception") or (res["error"] not in (None, "exception")):
+            return False
+        want_rows, bedseq = [], []
+        for ch in chroms:
+            for pr in ch["pairs"]:
+                if pr["result"] is None:
+                    continue
+                key = (ch["chrom"], pr["i"], pr["j"])
+                want_rows.append(key)
+                row = res["rows"].get(key)
+                if row is None or row["sample"] != pr["sample"] or int(row["het_variants0"]) != pr["het0"]:
+                    return False
+                res_ = {x: v for x, v in res.items() if x != "crash"}
+                if ch["died"]:
+                    res_["crash"] = 1     # BED / longest-block rows of this chromosome were not written
+                if not pair_model_equal(row, res_, key, pr["result"], p, exact_split=True):
+                    return False
+            bedseq += [[ch["chrom"]] + b for b in ch["bed"]]
+            if p == 2 and k > 2:
+                got = res["multiway"].get(ch["chrom"], [])
+                if ch["multiway"] is None:
+                    if got:
+                        return False
+                else:
+                    m = ch["multiway"]
+                    exp = [([i for i, x in enumerate(key_) if x == 1], cnt) for key_, cnt in m["hist"]]
+                    if [(rs, cnt) for _, rs, cnt in got] != exp:
+                        return False
+                    for sname, _, _ in got:
+                        if o["ignore"]:
+                            if sorted(sname.split("_")) != sorted(m["names"]):
+                                return False
+                        elif sname != (m["names"] or [""])[0]:
+                            return False
+        if res["row_order"] != want_rows:
+            return False
+        if p == 2 and res["bedseq"] != bedseq:
+            return False
+        return True
+
+    if not model_equal(ans):
+        hit = next((v for v, a in zip(variants[1:], answers[1:]) if model_equal(a)), None)
+        if hit:
+            ctx.observe(f"implementation matches the model with the proposed repairs {hit}")
+        else:
+            ctx.disagree("c11.run", req, {"error": res["error"], "rows": {str(kk): {x: v.get(x) for x in NUMERIC + ['sample', 'het_variants0']}
+                                                                       for kk, v in res["rows"].items()},
+                                          "bed": res["bedseq"], "multiway": res["multiway"]}, ans)
+    # multiway sample column: file order of the distinct names is the only order that does not depend on the hash seed
+    if p == 2 and k > 2 and o["ignore"] and res["rc"] == 0 and names is not None and len(set(names)) > 1:
+        first = list(dict.fromkeys(names))
+        seen = {s for rows_ in res["multiway"].values() for s, _, _ in rows_}
+        for hs in (1, 2, 3):
+            r2 = run_glue_cli(ctx, gs, d, f"hs{hs}", hashseed=hs)
+            seen |= {s for rows_ in r2["multiway"].values() for s, _, _ in rows_}
+        if len(seen) > 1:
+            fail(f"--tsv-multiway sample column differs between runs with different PYTHONHASHSEED: {sorted(seen)} "
+                 f"(\"_\".join(set(sample_names)))", K_F47)
+        elif seen and seen != {"_".join(first)} and sorted(next(iter(seen)).split("_")) != sorted(first):
+            fail(f"--tsv-multiway sample column {seen} does not name the compared samples {first}", "glue-multiway-sample")
+
+    # ---- (c) relabelling
+    if res["rc"] != 0 or names is None:
+        return fails
+    rel = [GL.GlueScenario.from_case(replay_relabelled)] if replay_relabelled else [gs.relabelled(ctx.rng) for _ in range(n_relabel)]
+    for r_i, g2 in enumerate(rel):
+        ctx.evaluated()
+        res2 = run_glue_cli(ctx, g2, d, f"grel{r_i}")
+        c2 = {"kind": "glue-relabel", "base": gs.as_case(), "relabelled": g2.as_case()}
+        if res2["rc"] != 0:
+            fail("relabelled input: whatshap compare exits with an error: " + res2.get("crash", ""),
+                 K_F45 if (res2.get("keyerror") and multi and p == 2) else "glue-relabel-crash", c2)
+            continue
+        diffs = []
+        for key, row in res["rows"].items():
+            row2 = res2["rows"].get(key, {})
+            for col in NUMERIC:
+                a, b = row.get(col), row2.get(col)
+                if a != b:
+                    if "switchflips" not in col and b is not None and abs(float(a) - float(b)) < 1e-9:
+                        continue
+                    diffs.append((key, col, a, b))
+        if diffs:
+            fail(f"listing haplotypes in another order changes --tsv-pairwise: {diffs[:4]}", K_F46 if (multi and p == 2) else "glue-relabel", c2)
+        if p == 2 and {kk: sorted(v) for kk, v in res["bed"].items()} != {kk: sorted(v) for kk, v in res2["bed"].items()}:
+            fail("listing haplotypes in another order changes --switch-error-bed", K_F46 if multi else "glue-relabel-bed", c2)
+    return fails
 
 # ------------------------------------------------------------------------------------------------
 # run
@@ -644,6 +979,10 @@ def replay_case(ctx, lib, d, c):
         lib.poly(c["ph0"], c["ph1"], c["sc"], c["fc"], brute=math.factorial(len(c["ph0"])) ** len(c["ph0"][0]) <= 3000)
     elif kind == "cli":
         check_cli(ctx, G.Scenario.from_case(c), d, 1)
+    elif kind == "glue":
+        check_glue(ctx, GL.GlueScenario.from_case(c), d, 1)
+    elif kind == "glue-relabel":
+        check_glue(ctx, GL.GlueScenario.from_case(c["base"]), d, 0, replay_relabelled=c["relabelled"])
     elif kind == "cli-relabel":
         check_cli(ctx, G.Scenario.from_case(c["base"]), d, 0, replay_relabelled=c["relabelled"])
 
@@ -655,6 +994,9 @@ def _run(ctx, rng, lib, d):
     for _, c in ctx.corpus():
         replay_case(ctx, lib, d, c)
     quick, scale = ctx.quick, ctx.scale
+    if os.environ.get("VERIF_C11_ONLY") == "glue":      # development aid: only the glue stream
+        glue_stream(ctx, rng, d, int(os.environ.get("VERIF_C11_N", "200")))
+        return
 
     # ---- raw string functions: exhaustive small, random larger, malformed
     maxn = 4 if quick else 6
@@ -785,3 +1127,15 @@ def _run(ctx, rng, lib, d):
             nv = (2, 4)          # tiny: few pairs, every data set may disagree somewhere
         scen = G.Scenario(rng, p, k, n_chroms=rng.choice([1, 1, 2]), n_var=nv, **kw)
         check_cli(ctx, scen, d, n_relabel=2 if quick else 3)
+
+    glue_stream(ctx, rng, d, (40 if quick else 400) * scale)
+
+
+def glue_stream(ctx, rng, d, n_glue):
+    """the glue of run_compare: samples / reader options / variant identity / chromosomes / pairs (model `c11.run`)"""
+    for it in range(n_glue):
+        multi = it % 8 == 7
+        p = rng.choice([2, 2, 2, 3]) if not multi else rng.choice([2, 2, 2, 2, 3])
+        k = rng.choice([2, 2, 3])
+        gs = GL.GlueScenario(rng, p, k, multi_gt=multi)
+        check_glue(ctx, gs, d, n_relabel=1)
